@@ -74,9 +74,17 @@ def lazy_map(I, node, env, sl, elt_fn, replaced=None):
             I.assign(g.target, sl.elem(t), e2)
             if replaced is not None:
                 e2.vars["__pre_evaluated"] = replaced[1].elem(t)
-            cache[key] = elt_fn(e2)
+            I.ghost["lazy_depth"] = I.ghost.get("lazy_depth", 0) + 1
+            try:
+                cache[key] = elt_fn(e2)
+            finally:
+                I.ghost["lazy_depth"] -= 1
         return cache[key]
-    return SList(sl.length, elem, f"map({sl.tag})")
+    r = SList(sl.length, elem, f"map({sl.tag})")
+    f = elt.func if isinstance(elt, ast.Call) else None
+    r.all_expr = bool(f is not None and ((isinstance(f, ast.Attribute) and (f.attr in PURE_METHODS or f.attr[:1].isupper()))
+                                         or (isinstance(f, ast.Name) and f.id[:1].isupper())))
+    return r
 
 
 class _ReplaceNode(ast.NodeTransformer):
@@ -239,7 +247,9 @@ def b_sum(I, sl, start=0):
 
 
 def copy_list(I, sl):
-    return SList(sl.length, sl.elem, f"copy({sl.tag})", family=sl.family)
+    r = SList(sl.length, sl.elem, f"copy({sl.tag})", family=sl.family)
+    r.all_expr = getattr(sl, "all_expr", False)
+    return r
 
 
 def union_star(I, base_set, sl):
@@ -256,8 +266,12 @@ def concat_star(I, extra):
     if len(stars) != 1 or stars[0] != len(extra) - 1:
         _unsupported("a symbolic-length list that is not the last positional argument")
     pre, sl = extra[:-1], extra[-1].slist
+    if all(isinstance(x, Obj) for x in pre):
+        r = gmode.ConsList(pre, sl)
+        r.all_expr = getattr(sl, "all_expr", False) and all(_is_expression(I, x) for x in pre)
+        return r
     if not all(is_num(x) for x in pre):
-        _unsupported("non-numeric arguments in front of a symbolic-length list")
+        _unsupported("mixed arguments in front of a symbolic-length list")
     n_pre = len(pre)
 
     def elem(t):
@@ -310,18 +324,40 @@ def helper_list_without_entry_at(I, fd, args):
     if isinstance(i, RangedIndex) and z3.simplify(i.length).get_id() == z3.simplify(entries.length).get_id():
         # 0 <= i < len(entries): the list with its i-th entry removed
         j = i.term
-        fam = entries.family
-
-        def elem(u):
-            a, b = entries.elem(u), entries.elem(z3.simplify(u + 1))
-            if is_num(a) and is_num(b):
-                return SNum(z3.If(u < j, real_term(a), real_term(b)), False)
-            _unsupported("entry-removed list of objects")
-        return SList(z3.simplify(entries.length - 1), elem, f"{entries.tag}~{j}")
+        r = SList(z3.simplify(entries.length - 1), lambda u: entries.elem(gmode.shifted_index(u, j)), f"{entries.tag}~{j}")
+        r.all_expr = getattr(entries, "all_expr", False)
+        r.without_of = (entries, j)
+        return r
     _unsupported("list_without_entry_at with an index that is not an enumerate() index of the same list")
 
 
+def _is_expression(I, x):
+    from .structural import is_expr_obj
+    return is_expr_obj(x)
+
+
+def helper_nary_init(I, fd, args):
+    """NAryExpression.__init__(self, *args) inside an element function (one node per index of
+    an enclosing list): every argument is known to be an expression, so the constructor's
+    contract - the post-condition of the `<class>[any arity].__init__` family - is used."""
+    o, sl = args[0], concat_star(I, args[1:])
+    if not getattr(sl, "all_expr", False):
+        _unsupported("constructor call inside an element function with arguments not known to be expressions")
+    if isinstance(sl, gmode.ConsList):
+        inn = gmode.ConsList(sl.prefix, sl.rest)
+    else:
+        inn = SList(sl.length, sl.elem, f"copy({sl.tag})", family=sl.family)
+        inn.all_expr = True
+    o.fields["_inners"] = inn
+    o.fields["_value"] = None
+    o.fields["_is_fully_reduced"] = False
+    o.fields["_evaluation_failed"] = False
+    o.fields["_variable_names"] = SSet(spec.vars_of(I, o))
+    return None
+
+
 HELPER_CONTRACTS = {
+    "NAryExpression.__init__": (helper_nary_init, lambda args, I=None: len(args) >= 2 and isinstance(args[-1], StarArgs) and isinstance(args[0], Obj)),
     "math_functions.multiply": (helper_multiply, lambda args: any(isinstance(x, StarArgs) for x in args)),
     "utilities.list_without_entry_at": (helper_list_without_entry_at, lambda args: len(args) == 2 and isinstance(args[0], SList)),
 }
@@ -332,6 +368,10 @@ def helper_contract(I, fd, args, kwargs):
     ent = HELPER_CONTRACTS.get(fd.qualname)
     if ent is None or kwargs or I.ghost.get("inline_helper") == fd.qualname or not ent[1](args):
         return NotImplemented
+    if fd.qualname == "NAryExpression.__init__" and not I.ghost.get("lazy_depth") \
+            and not (len(args) > 2 and all(isinstance(x, Obj) for x in args[1:-1])):
+        return NotImplemented         # constructions at statement level run the real constructor
+                                      # (except f(a, *rest): its operand list has no element function)
     I.ghost.setdefault("helper_contracts_used", set()).add(fd.qualname)
     return ent[0](I, fd, args)
 
